@@ -87,6 +87,17 @@ fn main() {
             driver::replay_file(&path, &|p, t| checks::get(p, t))
         }
         Some("selftest") => checks::selftest(seed),
+        Some("one") => {
+            // debug: simcheck one <PROP> <batch_idx> <run_idx> [tier]
+            let prop = args.get(2).cloned().unwrap_or_default();
+            let bi: usize = args.get(3).and_then(|s| s.parse().ok()).unwrap_or(0);
+            let run: u64 = args.get(4).and_then(|s| s.parse().ok()).unwrap_or(0);
+            let tier = args.get(5).cloned().unwrap_or_else(|| "quick".into());
+            match checks::get(&prop, &tier) {
+                Some(c) => driver::run_single(&c, bi, run, seed),
+                None => 2,
+            }
+        }
         _ => {
             stdout_line("usage: simcheck check <PROP> [--tier quick|thorough] | replay <file> | selftest");
             2
